@@ -221,6 +221,15 @@ where
         self.check_rep();
     }
 
+    /// Verification-only accessor (cargo feature `verif-hooks`): returns
+    /// the number of already-consumed elements still held at the front of
+    /// the backing container, and the backing container's length.
+    #[cfg(feature = "verif-hooks")]
+    #[must_use]
+    pub fn verif_rep(&self) -> (usize, usize) {
+        (self.consumed_prefix, self.container.slice().len())
+    }
+
     /// Enforce some invariant on entry/exit of public methods.
     #[inline(always)]
     #[cfg_attr(test, mutants::skip)] // obviously, removing checks will not be detected.
